@@ -312,10 +312,28 @@ def r3_text_equals_program(chk: Check):
     chk.require("'mem': node.value" in vm or "'mem': children" in vm, "launcherfinder.parser:Visitor.visit_mem_spec:value", "mem must be passed through as written", chk.loc(vis.module, vis.methods["visit_mem_spec"].node))
     chk.require("'cores': int(" in vc, "launcherfinder.parser:Visitor.visit_cores_spec:value", "cores must be converted to int", chk.loc(vis.module, vis.methods["visit_cores_spec"].node))
     # combination operators
-    t = src(vis.methods["visit_one_spec"].node)
-    chk.require("reduce(lambda x, el: x & el, children)" in t, "launcherfinder.parser:Visitor.visit_one_spec", "terms joined by `&` in the text must be combined with `&`", chk.loc(vis.module, vis.methods["visit_one_spec"].node))
-    t = src(vis.methods["visit_cuda"].node)
-    chk.require("specs.cuda_gpu(**children[0]) * int(children[1])" in t and t.count("specs.cuda_gpu(**children[0])") == 2, "launcherfinder.parser:Visitor.visit_cuda", "`cuda(...) * n` must multiply the programmatic request by int(n)", chk.loc(vis.module, vis.methods["visit_cuda"].node))
+    from ..dataflow import path_traces
+
+    f1 = vis.methods["visit_one_spec"]
+    rets = [x for x in body_walk(f1.node) if isinstance(x, ast.Return)]
+    ok = False
+    if len(rets) == 1 and isinstance(rets[0].value, ast.Call) and dotted(rets[0].value.func) in ("reduce", "functools.reduce") and len(rets[0].value.args) == 2:
+        fn_, seq = rets[0].value.args
+        if src(seq) == "children":
+            if isinstance(fn_, ast.Lambda) and len(fn_.args.args) == 2 and isinstance(fn_.body, ast.BinOp) and isinstance(fn_.body.op, ast.BitAnd):
+                pa, pb = (x.arg for x in fn_.args.args)
+                ok = src(fn_.body.left) == pa and src(fn_.body.right) == pb
+            elif dotted(fn_) in ("operator.and_", "and_", "operator.__and__"):
+                ok = True
+    chk.require(ok, "launcherfinder.parser:Visitor.visit_one_spec", "terms joined by `&` in the text must be combined with `&` (left to right)", chk.loc(vis.module, f1.node))
+    f2 = vis.methods["visit_cuda"]
+    ts = path_traces(f2.node, alpha=False)
+    ends = {}
+    for t_ in ts:
+        c = dict(t_.conds)
+        ends.setdefault(c.get("1 < len(children)"), set()).add(t_.end)
+    ok = ends == {True: {"return specs.cuda_gpu(**children[0]) * int(children[1])"}, False: {"return specs.cuda_gpu(**children[0])"}}
+    chk.require(ok, "launcherfinder.parser:Visitor.visit_cuda", f"`cuda(...) * n` must multiply the programmatic request by int(n); found {ends}", chk.loc(vis.module, f2.node))
     t = src(vis.methods["visit_cpu"].node)
     chk.require("return specs.cpu(**children[0])" in t, "launcherfinder.parser:Visitor.visit_cpu", "cpu(...) must build specs.cpu with the parsed keys", chk.loc(vis.module, vis.methods["visit_cpu"].node))
     t = src(vis.methods["visit_duration"].node)
@@ -357,11 +375,22 @@ def r4_order(chk: Check):
         ok = all(n.id in body for n, _ in muts)
         v = src(inloops[0].ast.target)
         ok = ok and any(src(c) == f"specs.extend(parse({v}))" for _, c in muts) and any(src(c) == f"specs.append({v})" for _, c in muts)
+    comp_form = False
+    if not ok:
+        # equivalent single expression: [r for spec in input_specs for r in (parse(spec) if isinstance(spec, str) else (spec,))]
+        for n in gf.live:
+            if n.kind == "stmt" and isinstance(n.ast, ast.Assign) and src(n.ast.targets[0]) == "specs" and isinstance(n.ast.value, ast.ListComp) and len(n.ast.value.generators) == 2:
+                g1, g2 = n.ast.value.generators
+                v = src(g1.target)
+                e = g2.iter
+                if src(g1.iter) == "input_specs" and not g1.ifs and not g2.ifs and src(n.ast.value.elt) == src(g2.target) and isinstance(e, ast.IfExp) \
+                        and src(e.test) == f"isinstance({v}, str)" and src(e.body) == f"parse({v})" and src(e.orelse) in (f"({v},)", f"[{v}]"):
+                    comp_form = ok = True
     chk.require(ok, chk.fkey(fd, "alternatives collected in argument order"),
                 "LauncherRegistry.find must collect the alternatives in one pass over its arguments, in order (textual ones expanded in place): collecting the textual and the programmatic "
                 "ones separately changes which alternative is tried first", loc)
     others = [n for n in gf.live if n.kind == "stmt" and isinstance(n.ast, ast.Assign) and src(n.ast.targets[0]) == "specs" and not (isinstance(n.ast.value, ast.List) and not n.ast.value.elts)]
-    chk.require(not others, chk.fkey(fd, "no reordering"), f"`specs` is rebuilt by {[src(n.ast) for n in others]}", loc)
+    chk.require(len(others) == (1 if comp_form else 0), chk.fkey(fd, "no reordering"), f"`specs` is rebuilt by {[src(n.ast) for n in others]}", loc)
     tries = [n for n in gf.live if n.kind == "for" and src(n.ast.iter) == "specs"]
     ok = len(tries) == 1 and any(isinstance(x, ast.Return) and src(x.value) == "launcher" for s in tries[0].ast.body for x in ast.walk(s))
     chk.require(ok, chk.fkey(fd, "first launcher wins"), "find must return the launcher of the first alternative that has one", loc)
